@@ -1,7 +1,8 @@
 """Generators of multi-script fonts with kerning / anchors for the layout checks (C05, C06, C18, C20)."""
 import random
 
-from .absfont import PS
+from . import absfont
+from .absfont import MS, PS
 
 # (glyph name, code point or None)
 REPERTOIRE = {
@@ -445,3 +446,63 @@ def mark_conflict_font(rng):
            "info": {"unitsPerEm": 1000, "ascender": 800, "descender": -200, "familyName": "MarkConflict", "styleName": "Regular"},
            "fea": "", "lib": {"public.openTypeCategories": {m: "mark" for m in marks}} if rng.random() < 0.5 else {}}
     return {"ufo": ufo, "q": 1, "hasCats": False, "markOpts": {"groupMarkClasses": True}}
+
+
+def propagate_font(rng):
+    """Marks with curved outlines whose control points lie far outside the curve, and composites made of mark components
+    only ("ligature marks"): PropagateAnchorsFilter (enabled through the UFO lib) promotes the component whose exact
+    (xmin, ymin) is closest to the origin.  Offsets are drawn until that choice differs from the one control-point
+    bounds would give, so any shortcut in how the bounds are taken -- for one UFO library or for both -- changes GPOS."""
+    from fontTools.pens.boundsPen import BoundsPen, ControlBoundsPen
+
+    def curl(sx, sy):
+        # cubic from (0,0) to (100,0) with control points far below / left / right of the curve
+        return [[0, 0, "line"], [-150 * sx * PS, -200 * sy * PS, "off"], [250 * sx * PS, -200 * sy * PS, "off"], [100 * PS, 0, "curve"],
+                [100 * PS, 60 * PS, "line"], [0, 60 * PS, "line"]]
+
+    glyphs = {"a": {"cs": [box()], "comps": [], "w": 500 * PS, "h": 0, "u": [0x61],
+                    "anchors": [{"n": "top", "x": 250 * PS, "y": 500 * PS}]}}
+    marks = []
+    for k in range(3):
+        nm = f"curl{k}comb"
+        marks.append(nm)
+        glyphs[nm] = {"cs": [curl(rng.choice([1, 2]), rng.choice([1, 2]))], "comps": [], "w": 0, "h": 0, "u": [0x300 + k],
+                      "anchors": [{"n": "_top", "x": 50 * PS, "y": -10 * PS}, {"n": "top", "x": 50 * PS, "y": (80 + 10 * k) * PS}]}
+    for k in range(2):
+        nm = f"box{k}comb"
+        marks.append(nm)
+        glyphs[nm] = {"cs": [box(0, 0, 80 + 20 * k, 50)], "comps": [], "w": 0, "h": 0, "u": [0x310 + k],
+                      "anchors": [{"n": "_top", "x": 40 * PS, "y": -10 * PS}, {"n": "top", "x": 40 * PS, "y": (70 + 5 * k) * PS}]}
+    probe = absfont.build_font({"glyphs": glyphs}, "ufoLib2")
+
+    def corner(pen_cls, base, dx, dy):
+        pen = pen_cls(probe)
+        probe[base].draw(pen)
+        return pen.bounds[0] + dx, pen.bounds[1] + dy
+
+    ncomp = 0
+    for _try in range(400):
+        if ncomp >= 4:
+            break
+        b1, b2 = rng.choice(marks[:3]), rng.choice(marks)
+        if b1 == b2:
+            continue
+        offs = [(rng.randint(-4, 12) * 25, rng.randint(-4, 12) * 25) for _ in range(2)]
+        exact = [corner(BoundsPen, b, *o) for b, o in zip((b1, b2), offs)]
+        ctrl = [corner(ControlBoundsPen, b, *o) for b, o in zip((b1, b2), offs)]
+        de = [x * x + y * y for x, y in exact]
+        dc = [x * x + y * y for x, y in ctrl]
+        if de[0] == de[1] or dc[0] == dc[1] or (de[0] < de[1]) == (dc[0] < dc[1]):
+            continue
+        nm = f"{b1}_{b2}" + (f".{ncomp}" if f"{b1}_{b2}" in glyphs else "")
+        glyphs[nm] = {"cs": [], "comps": [{"b": b, "m": [MS, 0, 0, MS], "d": [o[0] * PS, o[1] * PS]} for b, o in zip((b1, b2), offs)],
+                      "anchors": [], "w": 0, "h": 0, "u": []}
+        ncomp += 1
+    names = list(glyphs)
+    rng.shuffle(names)
+    cats = {m: "mark" for m in names if m != "a"}
+    ufo = {"glyphs": glyphs, "order": names, "glyphNames": names,
+           "info": {"unitsPerEm": 1000, "ascender": 800, "descender": -200, "familyName": "Propagate", "styleName": "Regular"},
+           "fea": "", "lib": {"public.openTypeCategories": cats,
+                              "com.github.googlei18n.ufo2ft.filters": [{"name": "propagateAnchors", "pre": True}]}}
+    return {"ufo": ufo, "q": 1, "hasCats": True, "ligatureMarks": ncomp}
